@@ -245,6 +245,25 @@ FAMILIES = (
         aim='tuple destructuring inside a for/while body over loop-carried names initialised to constants, with '
             'uses of the destructured names later in the same iteration (swap, Fibonacci step): a constant of '
             'the first analysis pass must not survive the widening of the loop-header merges; needs >= 3 trips'),
+    Family(
+        name='loop_cond', decorator='@fp.fpy', params='n: fp.Real', argnames=('n',),
+        atoms=(
+            A('m = n', 'n', 'm'),
+            A('p = m', 'm', 'p'),
+            A('n = n - 1', 'n', 'n'),
+            A('n = 0', '', 'n'),
+        ),
+        wraps=(W('while', 'while k{d} < m:', 'm'), W('while', 'while k{d} < p:', 'p'),
+               W('for', 'for i{d} in range(m):', 'm'), W('for', 'for i{d} in range(p):', 'p'),
+               W('if1', 'if n > 1:', 'n')),
+        returns=(A('return k0', 'k0'), A('return n', 'n'), A('return m', 'm')),
+        maxdepth=2,
+        sizes={'quick': (5, None), 'thorough': (6, None)},
+        n_pool={'quick': [0, 2, 4], 'thorough': [0, 1, 2, 3, 4, 5]},
+        aim='a copy (or a copy of a copy) taken before a loop and read in the while CONDITION (re-evaluated '
+            'against the loop-header merges) or in the for iterable (evaluated once), while the copied source is '
+            'reassigned in the body, plainly or under an if; the trip count is returned; limits never grow, so '
+            'every loop terminates'),
 )
 
 FAMILY_BY_NAME = {f.name: f for f in FAMILIES}
@@ -297,7 +316,8 @@ class _Enum:
                 ctr = f'k{depth}'
                 for b, _ in self.blocks(k - 1, defined, depth + 1, False):
                     lines = (f'{ctr} = 0', head) + _indent(b + (f'{ctr} = {ctr} + 1',))
-                    out.append((lines, defined, False))
+                    # the counter is initialised in the enclosing block, so it is readable after the loop
+                    out.append((lines, defined | {ctr}, False))
             elif w.kind == 'with':
                 for b, d in self.blocks(k - 1, defined, depth + 1, False):
                     out.append(((head,) + _indent(b), d, False))
